@@ -459,3 +459,13 @@ pub fn printable(ast: &Sx) -> Option<(Vec<Tok>, Sx, bool)> {
         _ => None,
     }
 }
+
+/// like `printable`, for trees that already contain Group nodes that must be kept (C18 rewrites)
+pub fn printable_keep_groups(ast: &Sx) -> Option<(Vec<Tok>, Sx, bool)> {
+    let mut toks = vec![];
+    to_tokens(ast, &mut toks);
+    match Pratt::parse(&toks) {
+        Ok(parsed) if parsed.strip_groups() == ast.strip_groups() => Some((toks, parsed, true)),
+        _ => None,
+    }
+}
